@@ -100,6 +100,13 @@ func runLoadSeq(c Case) interface{} {
 		case "remove":
 			os.Remove(filepath.Join(eng.Dir, "template", "page", op["name"].(string)+".ast.json"))
 			results = append(results, "done")
+		case "manifest":
+			if content, _ := op["content"].(string); content == "" {
+				os.Remove(filepath.Join(eng.Dir, "manifest.json"))
+			} else {
+				os.WriteFile(filepath.Join(eng.Dir, "manifest.json"), []byte(content), 0o644)
+			}
+			results = append(results, "done")
 		}
 	}
 	return J{"class": "ok", "results": results}
@@ -308,7 +315,12 @@ func genC10(r *Rng, n int, tier string, emit func(Case)) {
 					nm := present[rr.Intn(len(present))]
 					ops = append(ops, J{"op": "write", "name": nm, "content": fmt.Sprintf("v%d-%s", ver, nm)}) // repair
 				default:
-					ops = append(ops, J{"op": "remove", "name": present[rr.Intn(len(present))]})
+					if rr.Chance(1, 3) {
+						// the asset manifest next to the templates: valid, truncated, not JSON at all, or gone
+						ops = append(ops, J{"op": "manifest", "content": []string{`{"app.js":"app.1.js"}`, `{"app.js":`, "not json", "", `[1,2]`}[rr.Intn(5)]})
+					} else {
+						ops = append(ops, J{"op": "remove", "name": present[rr.Intn(len(present))]})
+					}
 				}
 			}
 			emit(Case{"kind": "loadseq", "debug": debug, "files": files, "ops": ops, "bucket": fmt.Sprintf("seq/debug=%t", debug), "nops": len(ops)})
